@@ -52,7 +52,12 @@ def read_simulation_csv(csv_file):
             power_battery_feed_in_list.append(power_battery_feed_in)
 
             try:
-                window_signal = bool(int(row["window signal [-]"]))
+                window_signal = row["window signal [-]"]
+                if window_signal in ("True", "False", "None"):
+                    # as written by report.generate_reports (bool or None)
+                    window_signal = {"True": True, "False": False, "None": None}[window_signal]
+                else:
+                    window_signal = bool(int(window_signal))
             except KeyError:
                 window_signal = None
 
